@@ -13,6 +13,22 @@
 //!     | 1 mask                            forget the remaining snapshots selected by mask
 //!     | 4 k                               resurrect forgotten snapshot k (verification deferred to the next prune)
 //!     | 2 instant early fast unc all noresize cacheable mu_kind mu_val mr_kind mr_val keep_pack_s keep_delete_s
+//!     | 8 size                            add a new file of `size` random bytes, backup
+//!     | 7                                 remove the file added last by op 8 (if any), backup
+//!     | 9 ms                              sleep
+//!
+//! Besides check + restore, every prune is watched for the second sentence of the property ("packs that
+//! prune only marks for deletion stay available at least for the configured keep-delete time and are
+//! brought back if a snapshot needs them again"):
+//!   early_delete      a pack file disappears in a prune without instant-delete although it was not marked
+//!                     before, or was marked by a prune that started less than keep_delete before this one ended
+//!   mark_time         an entry that is NEW in `packs_to_delete` carries no time or a time before the start of
+//!                     the prune that wrote it (keep-delete would be counted from somewhere else); an entry that
+//!                     STAYS in `packs_to_delete` changed its time
+//!   index_entry_lost  a pack file that exists after the prune and was listed by the index before is listed in
+//!                     neither section afterwards (it can never be brought back)
+//! These three are "soft": the history goes on, a later check/restore/prune failure is reported instead (with
+//! `after=<soft finding>`), otherwise the soft finding is reported at the end.
 //!
 //! Result: `ok steps=.. snaps=.. prunes=.. packs_removed=.. packs_marked_max=.. recovered=.. repacked=..`
 //!      or `FAIL step=.. op=.. what=.. lost=.. lost_collide=.. detail=..`
@@ -46,6 +62,9 @@ struct Rec {
     snap: SnapshotFile,
     files: Files,
     blobs: BTreeSet<Blob>,
+    /// while forgotten: some prune since then was allowed to delete its data for good
+    /// (instant-delete, or a keep-delete shorter than the history can last)
+    maybe_gone: bool,
 }
 
 /// One index file reduced to what the diagnosis needs.
@@ -53,6 +72,8 @@ struct Rec {
 struct IndexView {
     packs: Vec<(String, Vec<Blob>)>,
     to_delete: Vec<(String, Vec<Blob>)>,
+    /// mark time (ms since the epoch) of the entries in `to_delete`
+    del_time: BTreeMap<String, Option<i64>>,
 }
 
 fn short(e: impl std::fmt::Display) -> String {
@@ -320,7 +341,12 @@ impl Ctx {
                     })
                     .collect::<Vec<_>>()
             };
-            out.push(IndexView { packs: conv(&f.packs), to_delete: conv(&f.packs_to_delete) });
+            let del_time = f
+                .packs_to_delete
+                .iter()
+                .map(|p| (p.id.to_hex().as_str().to_string(), p.time.map(|t| t.as_millisecond())))
+                .collect();
+            out.push(IndexView { packs: conv(&f.packs), to_delete: conv(&f.packs_to_delete), del_time });
         }
         Ok(out)
     }
@@ -359,6 +385,19 @@ struct State {
     packs_marked_max: u64,
     recovered: u64,
     repacked: u64,
+    /// files added by op 8 (most recent last)
+    added: Vec<PathBuf>,
+    add_ctr: u64,
+    /// pack id -> start (ms since the epoch) of the prune after which it was first seen marked
+    marked_at: BTreeMap<String, i64>,
+    /// first soft finding (what, step, detail)
+    soft: Option<(&'static str, u64, String)>,
+    step: u64,
+    marks_checked: u64,
+}
+
+fn now_ms() -> i64 {
+    SystemTime::now().duration_since(SystemTime::UNIX_EPOCH).map(|d| d.as_millis() as i64).unwrap_or(0)
 }
 
 struct Failure {
@@ -414,7 +453,7 @@ impl State {
             }
             Ok(())
         });
-        self.remaining.push(Rec { snap, files, blobs });
+        self.remaining.push(Rec { snap, files, blobs, maybe_gone: false });
         Ok(())
     }
 
@@ -446,11 +485,43 @@ impl State {
         self.backup()
     }
 
+    fn op_add(&mut self, size: u64) -> Result<(), Failure> {
+        self.add_ctr += 1;
+        let mut rng = SplitMix(0x5eed_0000 ^ self.add_ctr.wrapping_mul(0x9E37_79B9));
+        let data: Vec<u8> = (0..size).map(|_| (rng.next() & 0xff) as u8).collect();
+        let name = self.src.fresh_name();
+        let p = self.src.root().join(name);
+        self.src.write(&p, &data);
+        self.added.push(p);
+        self.backup()
+    }
+
+    fn op_remove_added(&mut self) -> Result<(), Failure> {
+        if let Some(p) = self.added.pop() {
+            let _ = fs::remove_file(&p);
+        }
+        self.backup()
+    }
+
+    fn soft_finding(&mut self, what: &'static str, detail: String) {
+        // keep the finding closest to the property text: early_delete > index_entry_lost > mark_time
+        let rank = |w: &str| match w {
+            "early_delete" => 3,
+            "index_entry_lost" => 2,
+            _ => 1,
+        };
+        if self.soft.as_ref().is_none_or(|(w, _, _)| rank(w) < rank(what)) {
+            self.soft = Some((what, self.step, detail));
+        }
+    }
+
     fn op_forget(&mut self, mask: u64) -> Result<(), Failure> {
         let mut keep = Vec::new();
         let mut del = Vec::new();
         for (i, r) in std::mem::take(&mut self.remaining).into_iter().enumerate() {
             if i < 64 && (mask >> i) & 1 == 1 {
+                let mut r = r;
+                r.maybe_gone = false;
                 del.push(r);
             } else {
                 keep.push(r);
@@ -476,7 +547,9 @@ impl State {
         // for deletion that still exists) cannot be brought back by the user: putting
         // its snapshot file back would be a broken repository by construction, not a
         // finding about prune.  Such a resurrection is skipped.
-        {
+        // (Only when a prune since the forget was ALLOWED to delete the data: otherwise the packs must
+        // still be there, at least marked, and the resurrection has to work.)
+        if self.forgotten[idx].maybe_gone {
             let index = self.ctx.index().map_err(|e| fail("restore", format!("resurrect_read_index:{e}")))?;
             let packs = self.ctx.pack_list().map_err(|e| fail("restore", format!("resurrect_list:{e}")))?;
             let mut have: BTreeSet<&Blob> = BTreeSet::new();
@@ -532,7 +605,13 @@ impl State {
         }
     }
 
-    fn op_prune(&mut self, opts: &PruneOptions) -> Result<(), Failure> {
+    fn op_prune(&mut self, opts: &PruneOptions, instant: bool, keep_delete_s: u64) -> Result<(), Failure> {
+        if instant || keep_delete_s < 600 {
+            for r in &mut self.forgotten {
+                r.maybe_gone = true;
+            }
+        }
+        let start = now_ms();
         let before_idx = self.ctx.index().map_err(|e| fail("prune_error", format!("read_index:{e}")))?;
         self.note_collisions(&before_idx);
         let before_packs = self.ctx.pack_list().map_err(|e| fail("prune_error", format!("list:{e}")))?;
@@ -549,8 +628,63 @@ impl State {
         .map_err(|e| fail("prune_error", e))?;
         self.prunes += 1;
 
+        let end = now_ms();
         // statistics: best effort, a broken index shows up in the verification
         if let (Ok(after_idx), Ok(after_packs)) = (self.ctx.index(), self.ctx.pack_list()) {
+            // --- two-phase delete (see the header)
+            let listed_before: BTreeSet<&String> =
+                before_idx.iter().flat_map(|f| f.packs.iter().chain(f.to_delete.iter()).map(|p| &p.0)).collect();
+            let listed_after: BTreeSet<&String> =
+                after_idx.iter().flat_map(|f| f.packs.iter().chain(f.to_delete.iter()).map(|p| &p.0)).collect();
+            let time_before: BTreeMap<&String, Option<i64>> =
+                before_idx.iter().flat_map(|f| f.del_time.iter().map(|(k, v)| (k, *v))).collect();
+            let time_after: BTreeMap<&String, Option<i64>> =
+                after_idx.iter().flat_map(|f| f.del_time.iter().map(|(k, v)| (k, *v))).collect();
+            let mut soft: Vec<(&'static str, String)> = Vec::new();
+            if !instant {
+                for p in before_packs.difference(&after_packs) {
+                    match self.marked_at.get(p) {
+                        None if !marked_before.contains(p) && listed_before.contains(p) => {
+                            soft.push(("early_delete", format!("pack_{}_removed_without_having_been_marked", &p[..8])));
+                        }
+                        Some(s) if end - s < (keep_delete_s as i64) * 1000 => {
+                            soft.push(("early_delete", format!("pack_{}_removed_{}ms_after_the_start_of_the_prune_that_marked_it_keep_delete_{}s", &p[..8], end - s, keep_delete_s)));
+                        }
+                        _ => {}
+                    }
+                }
+                for (p, t) in &time_after {
+                    self.marks_checked += 1;
+                    match time_before.get(*p) {
+                        None => match t {
+                            // times are serialised with full precision; 2 ms slack for the clock
+                            Some(t) if *t + 2 >= start => {}
+                            Some(t) => soft.push(("mark_time", format!("pack_{}_newly_marked_with_time_{}ms_before_the_prune_started", &p[..8], start - t))),
+                            None => soft.push(("mark_time", format!("pack_{}_newly_marked_without_time", &p[..8]))),
+                        },
+                        Some(Some(old)) => {
+                            if *t != Some(*old) {
+                                soft.push(("mark_time", format!("pack_{}_stays_marked_but_its_mark_time_changed", &p[..8])));
+                            }
+                        }
+                        Some(None) => {}
+                    }
+                }
+            }
+            for p in &after_packs {
+                if listed_before.contains(p) && !listed_after.contains(p) {
+                    soft.push(("index_entry_lost", format!("pack_{}_exists_but_is_no_longer_listed_by_any_index_file", &p[..8])));
+                }
+            }
+            for (w, d) in soft {
+                self.soft_finding(w, d);
+            }
+            // bookkeeping of mark times
+            let marked_after_set: BTreeSet<String> = time_after.keys().map(|k| (*k).clone()).collect();
+            self.marked_at.retain(|k, _| marked_after_set.contains(k));
+            for p in marked_after_set {
+                let _ = self.marked_at.entry(p).or_insert(start);
+            }
             self.note_collisions(&after_idx);
             self.packs_removed += before_packs.difference(&after_packs).count() as u64;
             if after_packs.difference(&before_packs).next().is_some() {
@@ -736,17 +870,34 @@ fn run_case(line: &str) -> String {
         packs_marked_max: 0,
         recovered: 0,
         repacked: 0,
+        added: Vec::new(),
+        add_ctr: 0,
+        marked_at: BTreeMap::new(),
+        soft: None,
+        step: 0,
+        marks_checked: 0,
     };
 
     let mut steps = 0u64;
     for step in 0..nops {
         let kind = t.u();
+        st.step = step;
         let res: Result<(), Failure> = match kind {
             0 => {
                 let (mseed, nmut) = (t.u(), t.u());
                 st.op_backup(mseed, nmut)
             }
             3 => st.op_collision(true, true),
+            8 => {
+                let size = t.u();
+                st.op_add(size)
+            }
+            7 => st.op_remove_added(),
+            9 => {
+                std::thread::sleep(Duration::from_millis(t.u()));
+                steps += 1;
+                continue;
+            }
             5 => st.op_collision(true, false),
             6 => st.op_collision(false, true),
             1 => {
@@ -788,7 +939,7 @@ fn run_case(line: &str) -> String {
                     .max_repack(limit(v[9], v[10]))
                     .keep_pack(Span::new().seconds(v[11] as i64))
                     .keep_delete(Span::new().seconds(v[12] as i64));
-                let r = st.op_prune(&opts);
+                let r = st.op_prune(&opts, v[0] == 1, v[12]);
                 st.defer_verify = false;
                 r
             }
@@ -800,22 +951,28 @@ fn run_case(line: &str) -> String {
         };
         if let Err(f) = res {
             let (lost, lc) = st.diagnose();
+            let after = st.soft.as_ref().map_or(String::new(), |(w, s, _)| format!(" after={w}@{s}"));
             return format!(
-                "FAIL step={step} op={kind} what={} lost={lost} lost_collide={lc} detail={}",
+                "FAIL step={step} op={kind} what={} lost={lost} lost_collide={lc}{after} detail={}",
                 f.what,
                 short(&f.detail)
             );
         }
         steps += 1;
     }
+    if let Some((what, step, detail)) = st.soft.take() {
+        let (lost, lc) = st.diagnose();
+        return format!("FAIL step={step} op=2 what={what} lost={lost} lost_collide={lc} detail={}", short(&detail));
+    }
     format!(
-        "ok steps={steps} snaps={} prunes={} packs_removed={} packs_marked_max={} recovered={} repacked={}",
+        "ok steps={steps} snaps={} prunes={} packs_removed={} packs_marked_max={} recovered={} repacked={} marks_checked={}",
         st.remaining.len(),
         st.prunes,
         st.packs_removed,
         st.packs_marked_max,
         st.recovered,
-        st.repacked
+        st.repacked,
+        st.marks_checked
     )
 }
 
